@@ -410,6 +410,12 @@ func (st *State) applyContract(fr *Frame, in ssa.CallInstruction, ct *Contract, 
 			st.e.note(u.name, "assumption", fmt.Sprintf("precondition %s.%s (props %v) is outside this unit's properties at %s: not checked; the callee's postconditions are used only under it", ct.Func, label, props, site))
 			continue
 		}
+		if u.c.Options["callee-preconditions"] == "assumed" {
+			// a variant unit (F~x) re-reads a function for one more property; the preconditions of the calls in F are
+			// proof obligations of F's primary unit and are taken from there
+			st.assume(g)
+			continue
+		}
 		oprops := mergeProps(props, u.c.Props)
 		if len(r.Props) > 0 {
 			// explicitly tagged: the obligation belongs to those properties only (the other properties of this unit
